@@ -268,9 +268,10 @@ def r17e(ctx):
         if isinstance(br, ast.If) and ast.unparse(br.test).replace(" ", "") == "self.goal_test()":
             for r in [x for s_ in br.body for x in ast.walk(s_) if isinstance(x, ast.Return)]:
                 n += 1
-                ok = isinstance(r.value, ast.BoolOp) and isinstance(r.value.op, ast.Or) and any(
-                    isinstance(v, ast.Compare) and any(e in ast.unparse(v) for e in entry) and "self.bounds()" in ast.unparse(v)
-                    for v in r.value.values)
+                from ..astx import resolve_local
+                vals = r.value.values if isinstance(r.value, ast.BoolOp) and isinstance(r.value.op, ast.Or) else []
+                vals = [resolve_local(f.node, v) for v in vals]
+                ok = any(any(isinstance(c_, ast.Compare) and any(e in ast.unparse(c_) for e in entry) for c_ in ast.walk(v)) for v in vals)
                 if ok:
                     ctx.proved("R17e", f.file, "IterativeTighteningSearch.tighten_bounds", r, "goal reports progress",
                                "the goal branch answers True whenever the search's bounds moved since entry")
